@@ -101,6 +101,26 @@ Section C12.
       inversion H; subst; vm_compute; eauto.
   Qed.
 
+  (* Composite operations: for every failure function producing errors the composites do not
+     interpret (injected faults, permission errors - not io.EOF / EEXIST / ENOENT), a call of
+     Create, WriteFile, ReadFile, ReadDir, Glob or MkdirTemp returns an error whenever its own
+     consultation or a primitive it is built on was failed - EXCEPT the failures the generic
+     code of vfs.go deliberately ignores ([swallowed]: ReadFile's File.Stat and deferred Close,
+     ReadDir's deferred Close, every I/O error inside Glob).  _partial: the property as worded
+     ("fail when ANY primitive ... is made to fail") is false for those; see C12_composite_refuted
+     and the known finding C12-composite-swallow. *)
+  Theorem C12_composite_partial : forall (ff : ffun) tmpname bad_pattern fuel,
+    (forall h fn fl e, ff h fn fl = Some e -> opaque e = true) ->
+    forall (w : world bstate) id o m cp a bind fn,
+    olookup id (w_objs w) = Some o -> wo_wrapped o = true -> comp_of m = Some cp ->
+    let r := fst (wstep base_step failfs_table ff (Composites.comp_prog tmpname bad_pattern fuel) w (mkCall id m a bind)) in
+    In (fn, true) (r_cons r) -> swallowed cp fn = false -> a_err (r_ans r) <> None.
+  Proof.
+    exact (fun ff tmpname bad_pattern fuel H =>
+             @failfs_composite _ base_step failfs_table ff tmpname bad_pattern fuel
+                               (proj1 (proj2 (proj2 (proj2 C12_table)))) H).
+  Qed.
+
   (* With ReadOnlyFunc (its regenerated case list) the base's tree cannot change: ALL
      histories, closure over the objects handed out.  Assumption on the base as in C09. *)
   Hypothesis base_nonwrite : forall s b m a,
@@ -117,3 +137,44 @@ Section C12.
     exact (@failfs_readonly _ _ base_step tree_of failfs_table comp_prog ro_cases ro_default base_nonwrite C12_readonly_table).
   Qed.
 End C12.
+
+(* ---- non-vacuity and the refutation witness, on the toy base ---- *)
+Definition toy_prog := Composites.comp_prog (fun _ => [116%N]) (EOther []) 50.
+Definition fail_nth (f : fnvfs) (k : nat) : ffun :=
+  fun hist fn _ => if fnvfs_eqb fn f && Nat.eqb (count_occ fnvfs_eq_dec hist fn) k then Some (EInj 1) else None.
+
+(* the 2nd Mkdir is failed: it returns exactly the injected error and the tree (= number of
+   writes that reached the base) does not move; the other calls behave as on the base *)
+Example C12_example_inject :
+  let cs := [mkCall 0 (MV V_Mkdir) [AS [47;97]%N; AI 493] 9;
+             mkCall 0 (MV V_Mkdir) [AS [47;98]%N; AI 493] 9;
+             mkCall 0 (MV V_Mkdir) [AS [47;99]%N; AI 493] 9] in
+  let res := wrun toy_step failfs_table (fail_nth FnMkdir 1) toy_prog toy_world0 cs in
+  map (fun r => a_err (r_ans r)) (fst res) = [None; Some (EInj 1); None] /\
+  toy_tree (w_base (snd res)) = 2 /\
+  map (fun r => r_cons r) (fst res) = [[(FnMkdir, false)]; [(FnMkdir, true)]; [(FnMkdir, false)]].
+Proof. vm_compute. auto. Qed.
+
+(* read-only plan: WriteFile, Mkdir through a sub file system, OpenFile(O_RDWR), Write through a
+   file opened read-only: the tree stays at 0 and everything handed out is a wrapper *)
+Example C12_example_readonly :
+  let cs := [mkCall 0 (MV V_WriteFile) [AS [47;97]%N; AS [1]%N; AI 420] 9;
+             mkCall 0 (MV V_Sub) [AS [47]%N] 1;
+             mkCall 1 (MV V_Mkdir) [AS [47;98]%N; AI 493] 9;
+             mkCall 0 (MV V_OpenFile) [AS [47;97]%N; AI 2; AI 0] 9;
+             mkCall 0 (MV V_Open) [AS [47;97]%N] 2;
+             mkCall 2 (MF F_Write) [AS [1]%N] 9;
+             mkCall 0 (MV V_ReadFile) [AS [47;97]%N] 9] in
+  let res := wrun toy_step failfs_table (readonly_func ro_cases ro_default) toy_prog toy_world0 cs in
+  toy_tree (w_base (snd res)) = 0 /\
+  map (fun r => a_err (r_ans r)) (fst res) =
+    [Some (EErrno 13); None; Some (EErrno 13); Some (EErrno 13); None; Some (EErrno 13); None] /\
+  forallb (fun p => wo_wrapped (snd p)) (w_objs (snd res)) = true.
+Proof. vm_compute. auto. Qed.
+
+(* the full-strength composite clause is false: ReadFile with its deferred Close failed returns nil *)
+Example C12_composite_refuted :
+  let r := fst (wstep toy_step failfs_table (fail_nth FnFileClose 0) toy_prog toy_world0
+                      (mkCall 0 (MV V_ReadFile) [AS [47;97]%N] 9)) in
+  existsb (fun c => fnvfs_eqb (fst c) FnFileClose && snd c) (r_cons r) = true /\ a_err (r_ans r) = None.
+Proof. vm_compute. auto. Qed.
